@@ -187,6 +187,20 @@ func runOne(t *testing.T, dir, profile string, seed int64, steps int, replay [][
 			}
 		}
 		out.virtual = time.Since(start)
+		if n, win, spun := S.Ticks(); true {
+			if out.stats == nil {
+				out.stats = map[string]int{}
+			}
+			if int(n) > out.stats["max_driver_events_per_run"] {
+				out.stats["max_driver_events_per_run"] = int(n)
+			}
+			if int(win) > out.stats["max_driver_events_per_window"] {
+				out.stats["max_driver_events_per_window"] = int(win)
+			}
+			if spun {
+				out.stats["runs_with_escalated_tick"]++
+			}
+		}
 		for k, v := range S.Stats {
 			if out.stats == nil {
 				out.stats = map[string]int{}
@@ -313,6 +327,12 @@ func TestWorker(t *testing.T) {
 		res.Steps += o.steps
 		res.VirtualSec += o.virtual.Seconds()
 		for k, v := range o.stats {
+			if strings.HasPrefix(k, "max_") {
+				if v > res.Stats[k] {
+					res.Stats[k] = v
+				}
+				continue
+			}
 			res.Stats[k] += v
 		}
 		for k, v := range o.probes {
